@@ -79,6 +79,10 @@ class VariantAdapter(envcorr.Adapter):
     def batch_checker_cause(self, ctx, rows, batch_accepts):
         return ""
 
+    def batched_reward_model(self, ctx, insts, actions):
+        """rewards (ticks) predicted by a model of the BATCHED reward computation, if the family has one"""
+        return None
+
     def boundary_events(self, inst, actions):
         """labels of the constraint-equality events an episode went through (harness-side replay, only for the
         input-distribution report)"""
@@ -584,6 +588,24 @@ class SvrpAdapter(VariantAdapter):
         r = env._get_reward(td, actions)
         return [rl.ticks(v * self._cden) for v in r.flatten().tolist()]
 
+    def batched_reward_model(self, ctx, insts, actions):
+        """the Lean model of the Python loop that builds the cost table for the whole batch (`Svrp.costsBatch`,
+        with the two flush statements as extracted from the source); distances from the exact geometry"""
+        L = len(actions[0])
+        rep = ctx.driver.ask(f"svrp.costsbatch {insts[0]['T']} {L} | " + _join(insts[0]["costs"]) + " | "
+                             + " | ".join(_join(a) for a in actions))
+        tab = parse_fields(rep).get("table")
+        if tab is None:
+            ctx.disagreement("svrp: driver error (costsbatch)", {"reply": rep})
+            return None
+        out = []
+        for inst, acts, row in zip(insts, actions, tab.split(";")):
+            cost = [int(x) for x in row.split(",")]
+            D = geom.D_ticks(inst["pts"])
+            xs = [0] + list(acts)
+            out.append(-sum(D[xs[p]][xs[(p + 1) % len(xs)]] * cost[p] for p in range(len(xs))))
+        return out
+
     def to_td(self, insts):
         B = len(insts)
         self._cden = insts[0].get("cden", 1)  # the model's rewards are in units of 1/cden
@@ -726,8 +748,13 @@ THEOREMS = {
     ("C01", "cvrptw"): _T("Rl4co.Props.C01.Cvrptw",
         ("Rl4co.Cvrptw.feasible_of_run", P, "cap ≥ 0, RetOK (from every customer the depot is reached in time after the latest "
          "admissible service start) ⇒ every finished mask-confined episode is Spec-feasible (visits, loads, windows, returns)"),
+        ("Rl4co.Cvrptw.step_time", P, "the model's clock update has the shape max(t+d, start)+dur for a ≠ 0 — holds because of the "
+         "extracted source shape (Params.cvrptwStepDurAfterMax, cvrptwStepDepotCmp)"),
         ("Rl4co.Cvrptw.run_base", P, "a CVRPTW run projects to a run of the embedded CVRP model (class inheritance as a theorem)")),
-    ("C02", "cvrptw"): _T("Rl4co.Props.C02.Cvrptw",
+    ("C02", "cvrptw"): _T(["Rl4co.Props.C02.Cvrptw", "Rl4co.Props.C02.CvrptwGen"],
+        ("Rl4co.Cvrptw.gen_wf_cvrptw", P, "windows built by the generator model (Gen.Cvrptw.window under Cond, C18 cvrptw_window) ⇒ WF"),
+        ("Rl4co.Cvrptw.gen_mask_nonempty", P, "… hence every reachable state of a generated instance offers an action"),
+        ("Rl4co.Cvrptw.gen_feasible_of_run", P, "… and finished mask-confined episodes on generated instances are feasible"),
         ("Rl4co.Cvrptw.mask_nonempty", P, "WF (reachable from depot ∧ RetOK) ⇒ every reachable state, finished or not, offers an action"),
         ("Rl4co.Cvrptw.done_stable", P, "done is absorbing"),
         ("Rl4co.Cvrptw.steps_le", P, "demands ≤ capacity ⇒ an unfinished mask-confined run has at most 2n+1 steps"),
@@ -737,17 +764,23 @@ THEOREMS = {
         ("Rl4co.Cvrptw.reward_eq_objective", P, "reward = −(sum of closed route lengths) for every action list when D 0 0 = 0")),
     ("C04", "cvrptw"): _T("Rl4co.Props.C04.Cvrptw",
         ("Rl4co.Cvrptw.pad_noop", P, "a depot padding step after done changes neither done, mask nor reward (D 0 0 = 0, depot end ≥ 0)")),
-    ("C05", "cvrptw"): _T("Rl4co.Props.C05.Cvrptw",
+    ("C05", "cvrptw"): _T(["Rl4co.Props.C05.Cvrptw", "Rl4co.Props.C05.CvrptwOpt"],
+        ("Rl4co.Cvrptw.opt_reachable", P, "EVERY feasible solution (canonical or not) has a finished mask-confined episode of the same objective"),
+        ("Rl4co.Cvrptw.best_through_mask_eq_optimum", P, "∃/∀ form: some finished episode attains −objective(opt), none exceeds it"),
         ("Rl4co.Cvrptw.run_of_feasible", P, "every canonical Spec-feasible solution (windows with ≤) is a finished mask-confined run")),
     ("C06", "cvrptw"): _T("Rl4co.Props.C06.Cvrptw",
         ("Rl4co.Cvrptw.check_complete", P, "static assertions hold ∧ Spec-feasible ⇒ checker accepts (the truncated clock never runs ahead)"),
         ("Rl4co.Cvrptw.check_sound_counterexample", P, "¬ check_sound_statement: arrival 13/8 at a deadline 12/8 is accepted (`.int()`)"),
+        ("Rl4co.Cvrptw.checkStatic_boundary", P, "the static assertion admits equality and rejects one tick less (Params.cvrptwCheckStaticCmp)"),
         ("Rl4co.Cvrptw.check_row0_dependence", P, "the verdict on a feasible solution depends on the depot deadline of batch row 0"),
         ("Rl4co.Cvrptw.check_sound_partial", "partial", "on integral data (unit ∣ distances, window starts, durations) ∧ RetOK: accepted ⇒ "
          "feasible up to the load tolerance, windows exactly")),
     # ---------------------------------------------------------------- SDVRP
     ("C01", "sdvrp"): _T("Rl4co.Props.C01.Sdvrp",
         ("Rl4co.Sdvrp.feasible_of_run", P, "cap ≥ 0, demands ≥ 0 (also > cap) ⇒ every finished mask-confined episode has a valid split"),
+        ("Rl4co.Sdvrp.delivered_eq", P, "delivered = min(remaining, cap − used) — holds because of the extracted source shape "
+         "(Params.sdvrpStepDeliverIsMin, sdvrpStepFreeIsCapMinusUsed)"),
+        ("Rl4co.Sdvrp.step_used", P, "load update (used + delivered)·[a ≠ 0] (Params.sdvrpStepDepotCmp)"),
         ("Rl4co.Sdvrp.greedyFeasible_of_run", P, "… namely the greedy split the environment performs"),
         ("Rl4co.Spec.Sdvrp.feasible_of_greedy", P, "the executable oracle (greedy replay valid) implies the existential Spec")),
     ("C02", "sdvrp"): _T("Rl4co.Props.C02.Sdvrp",
@@ -758,8 +791,11 @@ THEOREMS = {
         ("Rl4co.Sdvrp.reward_eq_objective", P, "reward = −(sum of closed route lengths) for every action list when D 0 0 = 0")),
     ("C04", "sdvrp"): _T("Rl4co.Props.C04.Sdvrp",
         ("Rl4co.Sdvrp.pad_noop", P, "a depot padding step of a finished reachable state changes neither done, mask, remaining demands nor reward")),
-    ("C05", "sdvrp"): _T("Rl4co.Props.C05.Sdvrp",
-        ("Rl4co.Sdvrp.run_of_feasible", "partial", "relative to the greedy split: every non-empty canonical visit sequence whose greedy split "
+    ("C05", "sdvrp"): _T(["Rl4co.Props.C05.Sdvrp", "Rl4co.Props.C05.SdvrpClass"],
+        ("Rl4co.Sdvrp.complete_iff", P, "finished runs of the decoding loop = exactly the non-empty greedy-feasible canonical visit "
+         "sequences ending with a customer (iff)"),
+        ("Rl4co.Sdvrp.best_through_mask_eq_greedy_optimum", P, "∃/∀ form of: best reward through the mask = −min objective over that class"),
+        ("Rl4co.Sdvrp.run_of_feasible", P, "relative to the greedy split: every non-empty canonical visit sequence whose greedy split "
          "is valid is a finished mask-confined run (equality cases included)")),
     ("C06", "sdvrp"): _T("Rl4co.Props.C06.Sdvrp",
         ("Rl4co.Sdvrp.check_sound", P, "checker accepts ⇒ Spec-feasible (exactly; the checker has no tolerance)"),
@@ -769,9 +805,15 @@ THEOREMS = {
         ("Rl4co.Sdvrp.check_rejects_nongreedy", P, "a sequence feasible only with a non-greedy split is rejected")),
     # ---------------------------------------------------------------- SVRP
     ("C01", "svrp"): _T("Rl4co.Props.C01.Svrp",
+        ("Rl4co.Svrp.mask_eq", P, "the model's mask has the reference shape (last technician ⇔ tech == T − 1) — holds because of the "
+         "extracted Params.svrpMaskLastCmp / svrpMaskLastOffset"),
+        ("Rl4co.Svrp.step_eq", P, "the model's step increments the technician exactly on depot visits (Params.svrpStepDepotCmp)"),
         ("Rl4co.Svrp.feasible_of_run", P, "WF (T ≥ 1, last technician covers every customer) ⇒ every finished mask-confined episode is "
          "Spec-feasible (once each; route k by technician k < T with sufficient level)")),
-    ("C02", "svrp"): _T("Rl4co.Props.C02.Svrp",
+    ("C02", "svrp"): _T(["Rl4co.Props.C02.Svrp", "Rl4co.Props.C02.SvrpGen"],
+        ("Rl4co.Svrp.gen_wf_svrp", P, "generator post-condition (C18 svrp_skill_le_best: skill = max(techs)·u ≤ best level = last level) ⇒ WF"),
+        ("Rl4co.Svrp.gen_steps_le", P, "… hence the step bound on generated instances"),
+        ("Rl4co.Svrp.gen_tech_lt", P, "… and no technician-index overflow inside a batch loop on generated instances"),
         ("Rl4co.Svrp.mask_nonempty", P, "every state of the model offers an action"),
         ("Rl4co.Svrp.done_stable", P, "done is absorbing"),
         ("Rl4co.Svrp.steps_le", P, "WF ⇒ an unfinished mask-confined run has at most n + max(T−1, 1) steps"),
@@ -779,12 +821,19 @@ THEOREMS = {
         ("Rl4co.Svrp.tech_lt_of_run", P, "WF ⇒ along any mask-confined run of ≤ n+T−1 steps (padding included) current_tech < T: "
          "no index overflow inside a batch loop"),
         ("Rl4co.Svrp.single_technician_overflow", P, "T = 1: every finished episode ends in a state whose mask computation indexes techs[1]")),
-    ("C03", "svrp"): _T("Rl4co.Props.C03.Svrp",
+    ("C03", "svrp"): _T(["Rl4co.Props.C03.Svrp", "Rl4co.Props.C03.SvrpBatch"],
+        ("Rl4co.Svrp.costsBatch_eq_costRow", P, "the cost table built by the BATCHED Python loop (flat loop over nonzero(actions == 0), "
+         "both flush statements as extracted) equals, row by row, the per-instance cost row — any batch size / composition"),
         ("Rl4co.Svrp.reward_eq_objective", P, "reward = −Σ_k cost_k · closed length of route k, for every action list when D 0 0 = 0")),
-    ("C04", "svrp"): _T("Rl4co.Props.C04.Svrp",
+    ("C04", "svrp"): _T(["Rl4co.Props.C04.Svrp", "Rl4co.Props.C03.SvrpBatch"],
+        ("Rl4co.Svrp.costsBatch_eq_rows", P, "batched cost table = per-row cost rows whenever every row contains a depot visit: the reward of a "
+         "row does not depend on its batch-mates or its position"),
         ("Rl4co.Svrp.pad_noop", P, "a depot padding step after done changes neither done, mask nor reward although current_tech is incremented")),
-    ("C05", "svrp"): _T("Rl4co.Props.C05.Svrp",
-        ("Rl4co.Svrp.run_of_feasible", "partial", "every Spec-feasible solution with a depot visit in which a technician stays at home only "
+    ("C05", "svrp"): _T(["Rl4co.Props.C05.Svrp", "Rl4co.Props.C05.SvrpClass"],
+        ("Rl4co.Svrp.complete_iff", P, "finished runs of the decoding loop = exactly the feasible, canonical (no able technician stays "
+         "at home), tight solutions (iff)"),
+        ("Rl4co.Svrp.best_through_mask_eq_canonical_optimum", P, "∃/∀ form of: best reward through the mask = −min objective over the canonical feasible solutions"),
+        ("Rl4co.Svrp.run_of_feasible", P, "every Spec-feasible solution with a depot visit in which a technician stays at home only "
          "when he can serve nothing that is left is a finished mask-confined run"),
         ("Rl4co.Svrp.canonical_iff", P, "the executable canonicity test the harness uses to attribute a blocked solution to the known "
          "pruning decides `Canonical`"),
@@ -828,7 +877,8 @@ SCOPE = {
 def _unit(prop, fam, run):
     mod, thms = THEOREMS.get((prop, fam), (None, []))
     extra = [SCOPE[(prop, fam)]] if (prop, fam) in SCOPE else []
-    register(Unit(prop, fam, run, drivers=["drv_" + fam], lean_modules=[mod] if mod else [],
+    mods = list(mod) if isinstance(mod, (list, tuple)) else ([mod] if mod else [])
+    register(Unit(prop, fam, run, drivers=["drv_" + fam], lean_modules=mods,
                   theorems=thms, assumptions=[NOTE[fam], VARIANT_NOTE[fam]] + extra + ([] if thms else [NOTHM])))
 
 
